@@ -10,7 +10,7 @@
 (* fam "prettybin": the step keyword lines of a .pretty-* file and the     *)
 (* instructions MLMachine!Decode finds in the .ml-* file of the same       *)
 (* module / optimise setting / phase correspond one to one, in order       *)
-(* (clauses count, step).                                                  *)
+(* (clauses pretty-error, count, step).                                    *)
 (***************************************************************************)
 EXTENDS MLMachine, Json, IOUtils, TLCExt, SequencesExt
 CONSTANTS BlockSize
@@ -39,7 +39,8 @@ CheckCase(i) ==
                  /\ \E k \in dep : k + 1 <= Len(c.apps[a].argstrs) /\ c.apps[a].argstrs[k + 1] # c.apps[b].argstrs[k + 1] THEN "injective"
        ELSE ""
   ELSE LET ins == DecodeAll(c.bytes, 1) IN
-       IF Len(ins) # Len(c.steps) THEN "count"
+       IF ~c.pretty_ok THEN "pretty-error"          \* the binary files were written, writing the pretty ones raised
+       ELSE IF Len(ins) # Len(c.steps) THEN "count"
        ELSE IF \E k \in 1..Len(ins) : ~StepOK(ins[k], c.steps[k]) THEN "step"
        ELSE ""
 INSTANCE TraceBlocks WITH NCases <- Len(Cases), Check <- CheckCase
